@@ -279,7 +279,7 @@ def oracle(p):
             counts["batch"] += 1
             sd2 = rand_src(rng, D, maxn)
             sd2["size"] = sd["size"]
-            sd2["center"] = [c + rng.uniform(-.1, .1) for c in sd["center"]]
+            sd2["center"] = [c + rng.choice([-0.35, 0.3, 0.45]) * sp_ for c, sp_ in zip(sd["center"], sd["spacing"])]
             sd2["spacing"] = sd["spacing"]
             sd2["align_corners"] = sd["align_corners"]
             sd2["direction"] = sd["direction"]
@@ -293,6 +293,18 @@ def oracle(p):
                 fail(f"C05:ImageBatch.sample:per-image-grids:{mode}", "batch entry k is not image k sampled with its own grid", **ctx, src2=sd2)
             if len(ob.grids()) != 2 or not all(g == tgt for g in ob.grids()):
                 fail("C05:ImageBatch.sample:per-image-grids:grids", "result grids are not the target grids", **ctx)
+            # images on different grids, ONE shared target (a new grid, and the grid of image 0 itself)
+            for tname, tshared in (("shared-target", tgt), ("target-is-grid-of-image-0", src)):
+                osh = b.sample(tshared, mode=mode, padding=pad_arg(padding))
+                w0 = im.sample(tshared, mode=mode, padding=pad_arg(padding)).tensor().double()
+                w1 = Image(data2, src2).sample(tshared, mode=mode, padding=pad_arg(padding)).tensor().double()
+                if not isinstance(osh, ImageBatch) or int(osh.shape[0]) != 2 or \
+                        not bool(((osh.tensor().double()[0] - w0).abs() <= tol).all()) or \
+                        not bool(((osh.tensor().double()[1] - w1).abs() <= tol).all()):
+                    fail(f"C05:ImageBatch.sample:per-image-grids:{tname}:{mode}",
+                         "one shared target grid for images on different grids: batch entry k is not image k sampled on the target", **ctx, src2=sd2)
+                elif len(osh.grids()) != 2 or not all(g == tshared for g in osh.grids()):
+                    fail(f"C05:ImageBatch.sample:per-image-grids:{tname}:grids", "result grids are not the target grid", **ctx)
             bs = ImageBatch(torch.cat([data.unsqueeze(0), data2.unsqueeze(0)], 0), src)
             os_ = bs.sample(tgt, mode=mode, padding=pad_arg(padding))
             o2 = Image(data2, src).sample(tgt, mode=mode, padding=pad_arg(padding))
